@@ -5,8 +5,10 @@ open CffiVerif CffiVerif.Compare CffiVerif.Proto
 /-!
 Driver of the C17 model.
 
-Object tokens: `ptr:<oid>:<addr>` pointer-like cdata, `ld:<oid>:<addr>` long double cdata,
-`pi:<oid>:<n>` primitive cdata converting to the Python int/bool `n`, `po:<oid>:<vid>` primitive
+Object tokens (cdata tokens carry a 4th field, the kind of the ctype, mapped to the generated
+`CT_*` flags: pointer array struct union function signed unsigned bool enum uenum char float complex
+longdouble): `ptr:<oid>:<addr>:<kind>` pointer-like cdata, `ld:<oid>:<addr>:longdouble` long double cdata,
+`pi:<oid>:<n>:<kind>` primitive cdata converting to the Python int/bool `n`, `po:<oid>:<vid>` primitive
 converting to another Python value (identified by `vid`), `yi:<oid>:<n>` a Python int,
 `yo:<oid>:<vid>` another Python value.
 
@@ -42,20 +44,41 @@ def oracle? : String → Option (Option (Except ErrKind Bool))
   | "-" => some none
   | s => if s.startsWith "E" then some (some (.error .other)) else none
 
+/-- Base flag of a kind word (4th field of a token): the generated `CT_*` values. -/
+def kindFlags? : String → Option Nat
+  | "pointer" => some Generated.CompareExprs.CT_POINTER
+  | "array" => some Generated.CompareExprs.CT_ARRAY
+  | "struct" => some Generated.CompareExprs.CT_STRUCT
+  | "union" => some Generated.CompareExprs.CT_UNION
+  | "function" => some Generated.CompareExprs.CT_FUNCTIONPTR
+  | "signed" => some (Generated.CompareExprs.CT_PRIMITIVE_SIGNED ||| Generated.CompareExprs.CT_PRIMITIVE_FITS_LONG)
+  | "unsigned" => some Generated.CompareExprs.CT_PRIMITIVE_UNSIGNED
+  | "bool" => some (Generated.CompareExprs.CT_PRIMITIVE_UNSIGNED ||| Generated.CompareExprs.CT_IS_BOOL)
+  | "enum" => some (Generated.CompareExprs.CT_PRIMITIVE_SIGNED ||| Generated.CompareExprs.CT_IS_ENUM)
+  | "uenum" => some (Generated.CompareExprs.CT_PRIMITIVE_UNSIGNED ||| Generated.CompareExprs.CT_IS_ENUM)
+  | "char" => some Generated.CompareExprs.CT_PRIMITIVE_CHAR
+  | "float" => some Generated.CompareExprs.CT_PRIMITIVE_FLOAT
+  | "complex" => some Generated.CompareExprs.CT_PRIMITIVE_COMPLEX
+  | "longdouble" => some (Generated.CompareExprs.CT_PRIMITIVE_FLOAT ||| Generated.CompareExprs.CT_IS_LONGDOUBLE)
+  | _ => none
+
 def obj? (tok : String) : Option (Obj DVal) :=
-  match tok.splitOn ":" with
-  | [k, o, x] =>
+  let mk (k o x : String) (flags : Nat) : Option (Obj DVal) :=
     match nat? o with
     | none => none
     | some oid =>
       match k with
-      | "ptr" => (nat? x).map fun a => .cdata oid (.ptrlike a)
-      | "ld" => (nat? x).map fun a => .cdata oid (.longdouble a)
-      | "pi" => (int? x).map fun n => .cdata oid (.prim (.int n))
-      | "po" => (nat? x).map fun v => .cdata oid (.prim (.other v))
+      | "ptr" => (nat? x).map fun a => .cdata oid ⟨flags, a, .cdataAgain⟩
+      | "ld" => (nat? x).map fun a => .cdata oid ⟨flags, a, .cdataAgain⟩
+      | "pi" => (int? x).map fun n => .cdata oid ⟨flags, 0, .value (.int n)⟩
+      | "po" => (nat? x).map fun v => .cdata oid ⟨flags, 0, .value (.other v)⟩
       | "yi" => (int? x).map fun n => .py oid (.int n)
       | "yo" => (nat? x).map fun v => .py oid (.other v)
       | _ => none
+  match tok.splitOn ":" with
+  | [k, o, x, kind] => (kindFlags? kind).bind (mk k o x)
+  | [k, o, x] =>
+    if k = "yi" ∨ k = "yo" then mk k o x 0 else none
   | _ => none
 
 /-- The value operations for one line: ints natively, anything else from the
@@ -78,7 +101,7 @@ def mkOps (op : Op) (va : Option DVal) (o1 o2 : Option (Except ErrKind Bool)) (h
   vsForeign _ _ := .notImplemented
 
 def valOf : Obj DVal → Option DVal
-  | .cdata _ (.prim v) => some v
+  | .cdata _ ⟨_, _, .value v⟩ => some v
   | .py _ v => some v
   | _ => none
 
